@@ -2,6 +2,7 @@
 Real `Client` over the fake socket module with exhaustive small fault plans over the socket API.
 Monitor = socket ledger (created/closed/current, timeout in force, TLS wrapper); correspondence = the Lean model
 `Conn.connect` on the connect-phase plans (event log compared)."""
+import copy
 import itertools
 import socket as _real
 
@@ -441,6 +442,102 @@ def main(argv):
                             ctx.violation("a Client inside a pool: " + bad, dict(case, results=res), tags=["pooled-lifecycle"])
     finally:
         pool_mod.time = real_pt
+    # ---- part 5: the connection settings of a Client "inside a pool or hash client" - the wrappers build their Clients themselves, so what the
+    #      caller configured must reach every one of them, the first and those built after a failure: each connection is established under the
+    #      connect timeout, used under the I/O timeout, and with a TLS context configured all traffic goes through a wrapped socket --------------
+    for wkind in ("Client", "Pooled", "Hash", "HashPooled", "Hash2"):
+        for tls in (False, True):
+            for ct, iot in ((1.5, 2.5), (None, 2.5), (3.0, None), (0.25, 0.25)):
+                S = Scripted(rng)
+                kw5 = dict(socket_module=S.sm, default_noreply=False, connect_timeout=ct, timeout=iot)
+                if tls:
+                    kw5["tls_context"] = S.sm.tls_context()
+                if wkind == "Client":
+                    obj = Client(("h", 1), **kw5)
+                elif wkind == "Pooled":
+                    obj = PooledClient(("h", 1), max_pool_size=2, **kw5)
+                else:
+                    obj = HashClient([("h", 1)] if wkind != "Hash2" else [("h", 1), ("g", 2)], use_pooling=(wkind == "HashPooled"), retry_attempts=0, retry_timeout=0, dead_timeout=0, **kw5)
+                case = {"class": wkind, "tls": tls, "connect_timeout": ct, "timeout": iot}
+                ctx.case(("wrapper-settings", wkind, tls, ct, iot))
+                ctx.count("wrapper-settings")
+                res = []
+                for n, c5 in enumerate([{"op": "set", "k": "k", "v": b"1", "nr": False}, {"op": "get", "k": "k"}, {"op": "get", "k": "k"}, {"op": "get", "k": "k"},
+                                        {"op": "set", "k": "q", "v": b"2", "nr": False}, {"op": "get_many", "ks": ["k", "q", "r", "s"]}]):
+                    S.begin_call(n, {"recv_fault": (0, "timeout")} if n == 2 else {})
+                    res.append(run_call(obj, c5))
+                W5 = S.world
+                cur, bad = {}, None
+                for i5, ent in enumerate(W5.ledger):
+                    name, cid = ent[0], ent[1]
+                    if name == "settimeout":
+                        cur[cid] = ent[2][0]
+                    elif name == "connect" and cur.get(cid, "unset") != ct:
+                        bad = f"connection {cid} was established under timeout {cur.get(cid, 'unset')!r}, not the connect timeout {ct!r}"
+                    if name in ("connect", "sendall", "recv") and tls and W5.conns[cid].wraps is None:
+                        bad = f"{name} on socket {cid}, which is not a TLS-wrapped socket, although a TLS context is configured"
+                for cid, api, t in W5.io_timeouts:
+                    if t != iot:
+                        bad = bad or f"{api} on connection {cid} under timeout {t!r}, not the I/O timeout {iot!r}"
+                if W5.violations:
+                    bad = bad or f"{W5.violations[0]}"
+                nconn = sum(1 for e in W5.ledger if e[0] == "connect")
+                if nconn < 2:
+                    bad = bad or "the scenario did not reconnect after the failed call"
+                if bad:
+                    ctx.violation("a Client built by a wrapper does not connect / talk as configured: " + bad, dict(case, results=res), tags=["wrapper-settings", "class:" + wkind])
+    # ---- part 6: close() of a pooled client while one of its calls is in flight (what another thread does when it shuts the client down): at the
+    #      moment the request has gone out and the reply has not come, close() runs to completion.  The Client that was in flight is dropped by the
+    #      pool, so its socket must be closed by the time its call has ended - whether that call then fails or (reply-less) succeeds ----------
+    for wkind in ("Pooled", "Pooled1", "HashPooled"):
+        for c6 in ({"op": "get", "k": "k"}, {"op": "set", "k": "k", "v": b"1", "nr": False}, {"op": "set", "k": "k", "v": b"1", "nr": True},
+                   {"op": "get_many", "ks": ["a", "b"]}, {"op": "delete_many", "ks": ["a", "b"], "nr": False}, {"op": "incr", "k": "n", "d": 1, "nr": True}):
+            for warm in (0, 1, 2):
+                S = Scripted(rng)
+                kwp = dict(socket_module=S.sm, default_noreply=False, max_pool_size=(1 if wkind == "Pooled1" else 3))
+                obj = PooledClient(("h", 1), **kwp) if wkind.startswith("Pooled") else HashClient([("h", 1)], use_pooling=True, retry_attempts=0, retry_timeout=0, dead_timeout=0, **kwp)
+                case = {"class": wkind, "call_in_flight": repr(c6), "calls_before": warm}
+                ctx.case(("close-in-flight", wkind, repr(c6), warm))
+                ctx.count("close-while-in-flight")
+                for n in range(warm):
+                    S.begin_call(n, {})
+                    run_call(obj, {"op": "set", "k": "w%d" % n, "v": b"w", "nr": False})
+                inner = S.world.server
+                fired = []
+
+                def during(conn, data, _inner=inner, _obj=obj, _fired=fired):
+                    evs = _inner(conn, data)
+                    if not _fired:
+                        _fired.append(conn.id)
+                        _obj.close()
+                    return evs
+                S.world.server = during
+                S.begin_call(warm, {})
+                r_in = run_call(obj, copy.deepcopy(c6))
+                S.world.server = inner
+                still = [c_.id for c_ in S.world.conns if not c_.closed]
+                bad = None
+                if not fired:
+                    bad = "scenario did not reach the send"
+                elif still:
+                    bad = f"after the in-flight call ended ({r_in[:40]}): socket(s) {still} still open, and the pool no longer knows their Client"
+                    pools = [obj.client_pool] if wkind.startswith("Pooled") else [c_.client_pool for c_ in obj.clients.values()]
+                    known = [o for p_ in pools for o in list(p_.free) + list(p_.used)]
+                    if any(o.sock is not None and not o.sock.closed for o in known):
+                        bad = None        # still pooled: it will be reused or closed by the next close()
+                if bad is None:
+                    S.begin_call(warm + 1, {})
+                    r_next = run_call(obj, {"op": "set", "k": "z", "v": b"z", "nr": False})
+                    S.begin_call(warm + 2, {})
+                    r_next2 = run_call(obj, {"op": "get", "k": "z"})
+                    if (r_next, r_next2) != ("True", "b:7a"):
+                        bad = f"the calls after the interrupted one did not work: {r_next}, {r_next2}"
+                    obj.close()
+                    still = [c_.id for c_ in S.world.conns if not c_.closed]
+                    if bad is None and still:
+                        bad = f"after the final close(): socket(s) {still} are still open"
+                if bad:
+                    ctx.violation("close() while a pooled call is in flight: " + bad, case, tags=["close-in-flight", "class:" + wkind])
     ctx.assumptions = ["OS-level descriptors are modelled by ids in a ledger; close() counts as closed even if it raises",
                        "faults are Exception-class (BaseException is C10)"]
     ctx.finish()
